@@ -192,9 +192,21 @@ class RefRuleset:
         names = [t[0] for t in pt]
         out = []
         for bi, b in enumerate(self.base):
-            if b["replacements"] == names and (base_prob is None or b["prob"] == base_prob):
+            # the rescaled base probability is compared within a few ulps: p/(1-P(M)) and p*(1/(1-P(M))) are
+            # both right
+            if b["replacements"] == names and (base_prob is None or b["prob"] == base_prob
+                                                or ulps_close(base_prob, b["prob"], 3)):
                 out.append(bi)
         return out
+
+    def canonical_base_prob(self, pt, base_prob):
+        """the reference probability of the base structure a tool-side (pt, base_prob) belongs to"""
+        best = None
+        for bi in self.base_for_pt(pt, base_prob):
+            p = self.base[bi]["prob"]
+            if best is None or abs(p - base_prob) < abs(best - base_prob):
+                best = p
+        return base_prob if best is None else best
 
     # -- expansion ----------------------------------------------------------
     def expand(self, pt, omen=None):
